@@ -124,7 +124,7 @@ fn one_run(report: &mut Report, seed: u64, rid: u64, dir: &str, steps: usize) ->
     let mut rng = Rng::derive(seed, rid, 0x59ace);
     let data_blocks = *rng.pick(&[48u64, 64, 96, 160, 256]);
     let mut cfg = Cfg::disk(16 + data_blocks);
-    cfg.version = *rng.pick(&[3u32, 3, 3, 2]);
+    cfg.version = *rng.pick(&[3u32, 3, 2, 1]);
     cfg.cache = rng.chance(1, 2);
     cfg.cpus = *rng.pick(&[2usize, 4, 8, 16]);
     cfg.sync_io = rng.chance(1, 4);
@@ -210,7 +210,10 @@ fn one_run(report: &mut Report, seed: u64, rid: u64, dir: &str, steps: usize) ->
             match rng.below(10) {
                 0..=4 => {
                     let blocks = *rng.pick(&[1usize, 1, 2, 3, 4, 6]);
-                    let len = (blocks * 4096 - hl).saturating_sub(rng.range(0, 2000) as usize).max(22);
+                    // often within a few bytes of filling the last block exactly (where the v1 and v2/v3
+                    // header sizes round to different block counts)
+                    let short = if rng.chance(1, 3) { rng.range(0, 9) } else { rng.range(0, 2000) };
+                    let len = (blocks * 4096 - hl).saturating_sub(short as usize).max(22);
                     let old = run.model.get(&k).map(|v| run.blocks_of(&k, v.len())).unwrap_or(0);
                     // stay below ~93 % so that out-of-space can only come from fragmentation
                     if (run.live_blocks() - old + run.blocks_of(&k, len)) * 100 <= data_blocks * 93 {
@@ -329,7 +332,7 @@ fn one_run(report: &mut Report, seed: u64, rid: u64, dir: &str, steps: usize) ->
 pub fn run(args: &Args) -> Report {
     let mut report = Report::new(
         "space",
-        "mixed-extent workloads (1-6 block records, sizes straddling block boundaries) on 48-256-block v3/v2 devices filled to 60-92 %, 1-8 flush workers, io_uring and synchronous I/O, optional background readers pinning extents, delays at the retirement / release / publish points; at every quiescent point (flush acknowledged, callers paused): live extents + free runs tile the data area exactly, both free-space views agree and are coalesced, disk_usage = 4096 x live blocks, the independent decoder finds exactly the live records in their extents and only zero or complete-marker blocks elsewhere, metadata counters equal live totals, every key returns its own bytes; clean reopen keeps all of it; epilogue: delete everything -> one free run = whole data area, then the original fill program must be accepted again. distinct = (device size, fill decile, number of free runs, live extents/4) classes",
+        "mixed-extent workloads (1-6 block records, sizes straddling block boundaries) on 48-256-block v3/v2/v1 devices filled to 60-92 %, 1-8 flush workers, io_uring and synchronous I/O, optional background readers pinning extents, delays at the retirement / release / publish points; at every quiescent point (flush acknowledged, callers paused): live extents + free runs tile the data area exactly, both free-space views agree and are coalesced, disk_usage = 4096 x live blocks, the independent decoder finds exactly the live records in their extents and only zero or complete-marker blocks elsewhere, metadata counters equal live totals, every key returns its own bytes; clean reopen keeps all of it; epilogue: delete everything -> one free run = whole data area, then the original fill program must be accepted again. distinct = (device size, fill decile, number of free runs, live extents/4) classes",
     );
     let shard = args.num("shard", 0);
     let shards = args.num("shards", 1).max(1);
